@@ -73,6 +73,34 @@ fn full_digest(ex: &Exec) -> u64 {
     h.h
 }
 
+fn full_lines(ex: &Exec) -> Vec<String> {
+    let mut v = vec![];
+    ex.observe(&mut |s: &str| v.push(s.to_string()));
+    v
+}
+
+/// which classes of observation lines differ (first letter of the line: M model, N node, I index, P probe / referrers,
+/// B broken references, H handle, F file ...): `I-2+0` = two index lines disappeared, none appeared
+fn changed_classes(before: &[String], after: &[String]) -> String {
+    use std::collections::BTreeMap;
+    let mut cnt: BTreeMap<String, (i64, i64)> = BTreeMap::new();
+    let mut bag: HashMap<&str, i64> = HashMap::new();
+    for l in before {
+        *bag.entry(l.as_str()).or_insert(0) += 1;
+    }
+    for l in after {
+        *bag.entry(l.as_str()).or_insert(0) -= 1;
+    }
+    for (l, d) in bag {
+        if d != 0 {
+            let c = l.split_whitespace().next().unwrap_or("?").to_string();
+            let e = cnt.entry(c).or_insert((0, 0));
+            if d > 0 { e.0 += d } else { e.1 -= d }
+        }
+    }
+    cnt.iter().map(|(c, (a, b))| format!("{}-{}+{}", c, a, b)).collect::<Vec<_>>().join(",")
+}
+
 fn opname(op: &Op) -> String {
     op.line().split_whitespace().nth(1).unwrap_or("?").to_string()
 }
@@ -350,6 +378,7 @@ fn run_oracle_script(dump: String, probes: Vec<String>, ops: Vec<Op>, tx: mpsc::
         let r = guard(|| {
             let mut out: Vec<String> = vec![];
             let before_full = full_digest(&ex);
+            let before_lines = full_lines(&ex);
             let before_live = live_digest(&ex);
             let lv = live(&ex);
             let stale_principal = principal(op).map(|h| !lv.reach.iter().any(|s| s.contains(&ex.handles[h]))).unwrap_or(false);
@@ -373,7 +402,8 @@ fn run_oracle_script(dump: String, probes: Vec<String>, ops: Vec<Op>, tx: mpsc::
             if res.starts_with("R ERR") {
                 let after = full_digest(&ex);
                 if after != before_full {
-                    out.push(format!("FAIL C11 step={} op={} kind=state-changed-after-error {}", step, opname(op), res));
+                    let ch = changed_classes(&before_lines, &full_lines(&ex));
+                    out.push(format!("FAIL C11 step={} op={} kind=state-changed-after-error {} changed={}", step, opname(op), res, ch));
                 }
             }
             if stale_principal {
